@@ -122,6 +122,26 @@ def gen_cases(tier, rng):
             lens = C11.LENS if (tier == "thorough" or atom == "A") else [0, 8, 9, 16, 17, 33]
             cases += C11.cover_cases(fmt, atom, lens=lens)
             cases += C11.adjacency_cases(fmt, atom)
+    # capacity paths: push_uninitialized on a heap tendril that is (still) short (with_capacity / reserve / clear
+    # keep the buffer), and capacity requests that must panic before anything is touched (Buf32::grow overflow)
+    for atom in ("A", "N"):
+        for pre in (["withcap 0 %d" % c] for c in (9, 16, 64, 100)):
+            for n1 in (0, 1, 7, 8):
+                for n2 in (0, 1, 9):
+                    cases.append((C11.mk("bytes", atom, pre + ["pushu 0 %d" % n1, "pushu 0 %d" % n2, "clone 0 1", "pushu 1 3", "drop 0"]), "cap"))
+        for L in (0, 3, 9, 20):
+            body = C11.hx(bytes([0x61 + k % 26 for k in range(L)]))
+            for n1 in (0, 2, 8):
+                cases.append((C11.mk("bytes", atom, ["from 0 " + body, "reserve 0 40", "clear 0", "pushu 0 %d" % n1, "pushs 0 62", "drop 0"]), "cap"))
+                cases.append((C11.mk("bytes", atom, ["from 0 " + body, "pushu 0 %d" % n1, "clone 0 1", "pushu 0 %d" % (9 - n1), "setb 1 0 7a"]), "cap"))
+    for fmt in C11.FORMATS:
+        for atom in ("A", "N"):
+            for L in (0, 5, 9, 40):
+                body = C11.hx(C11.content(fmt, L, 1))
+                for huge in (2415919104, 4294967295, 4294967290, 2147483649):
+                    cases.append((C11.mk(fmt, atom, ["from 0 " + body, "clone 0 1", "reserve 0 %d" % huge, "pushs 0 61", "drop 1",
+                                                     "reserve 0 %d" % huge, "clone 0 2", "reserve 2 %d" % huge, "drop 0"]), "cap-overflow"))
+                    cases.append((C11.mk(fmt, atom, ["withcap 0 %d" % huge, "from 1 " + body, "withcap 1 %d" % huge, "pushs 1 61"]), "cap-overflow"))
     cases += thread_cases(400 if tier == "quick" else 20000, rng)
     n = 3000 if tier == "quick" else 300000
     for k in range(n):
@@ -139,6 +159,15 @@ def compare(line, impl, model):
     # the multi-thread family has no model run (the Lean theorem about interleavings is abstract);
     # it is judged by the oracle only
     if line.split("\t")[2] == "T":
+        return True
+    if any(h in line for h in (" 2415919104", " 4294967295", " 4294967290", " 2147483649")):
+        # a capacity request that panics: the real `reserve` has already made the tendril owned when `grow`
+        # panics (no leak, the tendril owns the block); the model reports the panic with the state unchanged.
+        # Judged by the ledger oracle (every block owned once, released once).
+        return True
+    if "pushu " in line:
+        # push_uninitialized is not an operation of the Lean model (its theorems quantify over the modelled
+        # operations); these cases are judged by the Vec oracle and the allocation ledger only
         return True
     return C11.strip_annot(impl) == model
 
